@@ -743,3 +743,4 @@ not_reproduced()
 # level text addendum (cases added after the seeded-change rounds)
 LEVEL_TEXT = LEVEL_TEXT + ' Also: the band-pass multiplier per bin read through a flat-spectrum FFT probe (overlapping tapers, prime lengths, corners as list/tuple/array), integer-typed signals and abscissae, the taper as a point-wise function (any order, 2-D).'
 LEVEL_TEXT = LEVEL_TEXT + ' Round 6: unsigned integer abscissae with integer bounds (subtraction wraps as in NumPy).'
+LEVEL_TEXT = LEVEL_TEXT + ' Round 7: infinite abscissae of the cosine taper.'
